@@ -273,6 +273,80 @@ def _ground_injectivity(exprs) -> list:
     return out
 
 
+_SYMS_CACHE: dict = {}
+_IGNORED_SYMS = {'otag', 'born', 'truthy_any', 'id_nonobj'}
+
+
+def _symbols(e) -> frozenset:
+    """Uninterpreted constants and functions occurring in e (class table functions excluded: they are shared by everything)."""
+    k = e.get_id()
+    r = _SYMS_CACHE.get(k)
+    if r is not None and r[0].eq(e):      # the cache pins the expression: z3 reuses AST ids of collected terms
+        return r[1]
+    out = set()
+    seen = set()
+    stack = [e]
+    while stack:
+        x = stack.pop()
+        i = x.get_id()
+        if i in seen:
+            continue
+        seen.add(i)
+        if z3.is_quantifier(x):
+            stack.append(x.body())
+            continue
+        if z3.is_app(x):
+            d = x.decl()
+            if d.kind() == z3.Z3_OP_UNINTERPRETED and d.name() not in _IGNORED_SYMS:
+                out.add(d.name())
+            stack.extend(x.children())
+    r = frozenset(out)
+    _SYMS_CACHE[k] = (e, r)
+    return r
+
+
+_FE_CACHE: dict = {}
+
+
+def _has_forall_exists(e) -> bool:
+    k = e.get_id()
+    r = _FE_CACHE.get(k)
+    if r is not None and r[0].eq(e):
+        return r[1]
+    seen, stack, found = set(), [e], False
+    while stack:
+        x = stack.pop()
+        i = x.get_id()
+        if i in seen:
+            continue
+        seen.add(i)
+        if z3.is_quantifier(x):
+            if not x.is_lambda():
+                found = True
+                break
+            stack.append(x.body())
+            continue
+        stack.extend(x.children())
+    _FE_CACHE[k] = (e, found)
+    return found
+
+
+def _relevant_slice(ob):
+    want = set(_symbols(ob.goal))
+    syms = [(p, _symbols(p)) for p in ob.pc]
+    chosen = [False] * len(syms)
+    changed = True
+    while changed:
+        changed = False
+        for idx, (p, sy) in enumerate(syms):
+            if not chosen[idx] and sy & want:
+                chosen[idx] = True
+                if not sy <= want:
+                    want |= sy
+                    changed = True
+    return [p for idx, (p, _) in enumerate(syms) if chosen[idx]]
+
+
 def _solve(ob, axioms, extra, timeout_ms):
     s = z3.Solver()
     s.set('timeout', timeout_ms)
@@ -287,6 +361,7 @@ def _solve(ob, axioms, extra, timeout_ms):
 
 
 def _check_one(i: int):
+    from .core import _has_quantifier
     ob = _OBLS[i]
     t0 = time.time()
     ground_ax = [a for a in _AXIOMS if not z3.is_quantifier(a)]
@@ -312,7 +387,6 @@ def _check_one(i: int):
         s1, r1 = _solve(ob, ground_ax, [], 2000)
         return i, ('unsat' if r1 == z3.unsat else 'sat' if r1 == z3.sat else 'unknown'), None, time.time() - t0, 'z3', None
     # phase 0: only the quantifier-free part of the path condition (fewer assumptions: unsat is sound) - most obligations need no more
-    from .core import _has_quantifier
     qf_pc = [p for p in ob.pc if not _has_quantifier(p)]
     if len(qf_pc) < len(ob.pc):
         s0 = z3.Solver()
@@ -324,6 +398,45 @@ def _check_one(i: int):
         s0.add(z3.Not(ob.goal))
         if s0.check() == z3.unsat:
             return i, 'unsat', None, time.time() - t0, 'z3 (quantifier-free slice)', None
+    # phase R: the goal-relevant slice of the path condition (conjuncts connected to the goal through shared uninterpreted symbols).
+    # If that slice is quantifier-free, its verdict is final: unsat is sound (fewer assumptions); sat gives a counter-model of the
+    # slice which extends to the whole path condition because the remaining conjuncts share no symbol with it (they are satisfiable
+    # on a feasible path - the canaries probe that separately).
+    try:
+        rel = _relevant_slice(ob)
+    except Exception:
+        rel = None
+    if os.environ.get('PYVC_NO_SLICE') != '1' and rel is not None and len(rel) < len(ob.pc) and all(not _has_quantifier(p) for p in rel):
+        sr = z3.Solver()
+        sr.set('timeout', min(_TIMEOUT_MS, 5000))
+        for a in ground_ax:
+            sr.add(a)
+        for p in rel:
+            sr.add(p)
+        sr.add(z3.Not(ob.goal))
+        rr = sr.check()
+        if rr == z3.unsat:
+            return i, 'unsat', None, time.time() - t0, 'z3 (goal-relevant slice)', None
+        if rr == z3.sat and not _has_quantifier(ob.goal):
+            try:
+                mtxt = _model_to_text(sr.model())
+            except Exception:
+                mtxt = None
+            # the rest of the path condition must itself be satisfiable (otherwise the path is infeasible and the obligation vacuous)
+            relids = {p.get_id() for p in rel}
+            rest_qf = [p for p in ob.pc if p.get_id() not in relids and not _has_forall_exists(p)]   # lambdas (array terms) are fine here
+            s2 = z3.Solver()
+            s2.set('timeout', 3000)
+            for a in ground_ax:
+                s2.add(a)
+            for p in rest_qf:
+                s2.add(p)
+            r2 = s2.check()
+            if r2 == z3.unsat:
+                return i, 'unsat', None, time.time() - t0, 'z3 (path condition inconsistent: infeasible path)', None
+            rest_all_decidable = all(not _has_forall_exists(p) for p in ob.pc if p.get_id() not in relids)
+            if r2 == z3.sat and rest_all_decidable:
+                return i, 'sat', mtxt, time.time() - t0, 'z3 (counter-model of the goal-relevant, quantifier-free slice of the path condition)', None
     # phase 1: quantifier-free axioms + ground injectivity instances (fewer axioms: unsat is sound, sat is a candidate)
     s, r = _solve(ob, ground_ax, _ground_injectivity(list(ob.pc) + [ob.goal]) if quant_ax else [], _TIMEOUT_MS)
     cand_model = None
